@@ -325,6 +325,9 @@ func parseAnsiCode(s string) (int, string) {
 	i = strings.IndexByte(s, ';')
 	if i < 0 {
 		i = strings.IndexByte(s, ':')
+	} else if j := strings.IndexByte(s[:i], ':'); j >= 0 {
+		// A colon comes before the first semicolon (e.g. "38:5:100;4")
+		i = j
 	}
 	if i >= 0 {
 		remaining = s[i+1:]
